@@ -43,6 +43,9 @@ func (rt *runtimeState) advance(atLeast *smt.Term) *smt.Term {
 	old := rt.clock()
 	n := ex.freshVar("clock", smt.BV(64), "int64")
 	ex.assume(c.Cmp(smt.OpSLe, old, n))
+	// the whole execution happens at clock readings below 2^62 ns (~146 years): keeps the
+	// arithmetic of now+d away from int64 saturation, which real clocks never approach
+	ex.assume(c.Cmp(smt.OpSLt, n, c.ConstS(64, 1<<62)))
 	if atLeast != nil {
 		ex.assume(c.Cmp(smt.OpSLe, atLeast, n))
 	}
@@ -69,8 +72,15 @@ func (rt *runtimeState) newTimer(d *smt.Term) *Timer {
 	return t
 }
 
+// maxTimerFires bounds the timer-fire events of one path (periodic timers would otherwise give
+// unboundedly long executions); when exhausted, armed timers simply do not fire any more.
+var _ = 0
+
 func (rt *runtimeState) enabledEvents() []int {
 	var out []int
+	if rt.fires >= rt.ex.cfg.MaxTimerFires {
+		return nil
+	}
 	for _, t := range rt.timers {
 		if t.armed {
 			out = append(out, eventBase+t.id)
@@ -94,6 +104,7 @@ func (rt *runtimeState) eventFootprint(id int) ([]interface{}, bool) {
 func (rt *runtimeState) runEvent(id int, from *Goroutine) {
 	ex := rt.ex
 	t := rt.timers[id-eventBase]
+	rt.fires++
 	now := rt.advance(t.when)
 	t.armed = false
 	switch {
